@@ -109,14 +109,11 @@ def join_abs(a, b):
     return dict(A.TOP)
 
 
-RANGES = []
-
-
 def r7(F, R):
     R.rule("C08-R7", "scale-range agreement between sibling kernels: every clamped store into stds (inv_stds) has the same numeric range in all element kernels - the "
                      "clamp bounds limit one and the same quantity (the variance), so no kernel silently narrows the representable scales")
     by = {}
-    for (kn, fld, lo, hi, site) in RANGES:
+    for (kn, fld, lo, hi, site) in R.__dict__.get("c08_ranges", []):
         by.setdefault(fld, []).append((kn, lo, hi, site))
     for fld, lst in sorted(by.items()):
         ref = None
@@ -140,7 +137,7 @@ def r7(F, R):
 
 
 def r1_r3(F, R):
-    del RANGES[:]
+    R.__dict__["c08_ranges"] = []
     R.rule("C08-R1", "every store into DiagMassMatrix.stds / inv_stds made by an element kernel is finite and strictly positive for arbitrary inputs (NaN, "
                      "infinite, zero, negative, huge), given the clamp bounds and fill values passed at all call sites; otherwise the element is left untouched")
     R.rule("C08-R3", "reciprocal pair: the two stores of one element are sqrt(v) and sqrt(recip(v)) of the same v; set_transform derives inv_stds by array_recip(stds)")
@@ -263,7 +260,7 @@ def analyse_kernel(F, R, kb, hit, wb, call_t):
                 continue
             for v, n in ss:
                 if A.posfin(v) and v["lo"] is not None and v["hi"] is not None and v["lo"] != v["hi"]:
-                    RANGES.append((kb.fn_name, fld, v["lo"], v["hi"], "%s @%s" % (kb.path, loc(n.get("span")))))
+                    R.__dict__.setdefault("c08_ranges", []).append((kb.fn_name, fld, v["lo"], v["hi"], "%s @%s" % (kb.path, loc(n.get("span")))))
             bad = [(v, n) for v, n in ss if not A.posfin(v)]
             if bad:
                 R.bad("C08-R1", key, "%s @%s" % (kb.path, loc(bad[0][1].get("span"))), "a store into %s %s (for some input element / call-site parameters): the scale can become "
